@@ -25,6 +25,11 @@ FNS = ["Run", "RunV", "RunWith", "RunWithV", "Output", "OutputWith", "Exec"]
 USES_MAP = {"RunWith", "RunWithV", "OutputWith", "Exec"}
 FNSEL = {"Run": "FRun", "RunV": "FRunV", "RunWith": "FRunWith", "RunWithV": "FRunWithV", "Output": "FOutput",
          "OutputWith": "FOutputWith", "Exec": "FExec"}
+VERBOSE = "MAGEFILE_VERBOSE"
+VERBOSE_VALUES = ["1", "1", "true", "0", ""]
+PLAIN = [w for w in WORDS if "$" not in w]
+SLOW_REF = "${Z}"                # Z is never set: expands to nothing, slowly when repeated
+BAKED_COUNTS = [1, 2, 3, 4, 8, 16, 17, 19, 21, 33]
 NILS = {"nil": True, "id": 0, "off": 0, "len": 0, "cap": 0}
 
 
@@ -56,14 +61,18 @@ def gen_arrays(rng):
     arrays = []
     for _ in range(rng.choice([1, 2, 2, 3, 3, 4, 5])):
         n = rng.choice([0, 1, 2, 2, 3, 3, 4, 5, 6])
-        arrays.append([rng.choice(WORDS) for _ in range(n)])
+        words = PLAIN if rng.random() < 0.4 else WORDS      # arrays without any $ reference are frequent
+        arrays.append([rng.choice(words) for _ in range(n)])
     if all(len(a) < 2 for a in arrays):
         arrays.append([rng.choice(WORDS) for _ in range(3)])
     return arrays
 
 
 def gen_env(rng):
-    return {v: rng.choice(VALUES) for v in VARS if rng.random() < 0.75}
+    env = {v: rng.choice(VALUES) for v in VARS if rng.random() < 0.75}
+    if rng.random() < 0.4:
+        env[VERBOSE] = rng.choice(VERBOSE_VALUES)          # mage -v
+    return env
 
 
 def gen_closures(rng, arrays):
@@ -84,7 +93,9 @@ def gen_history(rng):
     ops = []
     for _ in range(rng.choice([1, 2, 3, 3, 4, 4, 5, 6, 8, 10])):
         r = rng.random()
-        if r < 0.25:
+        if r < 0.07:
+            ops.append({"op": "setenv", "k": VERBOSE, "v": rng.choice(VERBOSE_VALUES)})
+        elif r < 0.25:
             ops.append({"op": "setenv", "k": rng.choice(VARS), "v": rng.choice(VALUES)})
         elif r < 0.70:
             c = rng.randrange(len(cls))
@@ -105,20 +116,33 @@ def gen_history(rng):
 
 
 def gen_par(rng, reps):
-    arrays = gen_arrays(rng)
-    while True:
-        baked = gen_slice(rng, arrays, want_spare=True)
-        if baked["cap"] > baked["len"] or rng.random() < 0.1:
-            break
-    # the two calls differ in their arguments, so that the children can be told apart
-    arrays = arrays + [["A-" + rng.choice(WORDS), rng.choice(WORDS)], ["B-" + rng.choice(WORDS), rng.choice(WORDS)]]
-    a = {"nil": False, "id": len(arrays) - 2, "off": 0, "len": rng.choice([1, 1, 2]), "cap": 2}
-    b = {"nil": False, "id": len(arrays) - 1, "off": 0, "len": rng.choice([1, 1, 2]), "cap": 2}
+    """n goroutines call one closure at once.  The baked-in list has a length from BAKED_COUNTS (Go's
+    allocator rounds the capacity of a copied slice up to a size class, so 17, 19, 21, 33 strings get
+    spare room where 16 get none), some baked-in arguments are slow to expand (many references to an
+    unset variable), so that the calls overlap INSIDE Exec and not only while the children are held."""
+    arrays = gen_arrays(rng)[:2]
+    nb = rng.choice(BAKED_COUNTS)
+    spare = rng.choice([0, 0, 1, 2])
+    slow_n = rng.choice([0, 1500, 3000, 3000])
+    cells = []
+    for i in range(nb + spare):
+        w = rng.choice(WORDS)
+        if slow_n and i < min(nb, 6) and (i < 2 or rng.random() < 0.5):
+            w = w + SLOW_REF * slow_n
+        cells.append(w)
+    arrays.append(cells)
+    baked = {"nil": False, "id": len(arrays) - 1, "off": 0, "len": nb, "cap": nb + spare}
+    n = rng.choice([2, 2, 3, 4, 6])
+    extras = []
+    for g in range(n):
+        # the calls differ in their arguments, so that the children can be told apart
+        arrays.append(["G%d-%s" % (g, rng.choice(WORDS)), rng.choice(WORDS)])
+        extras.append({"nil": False, "id": len(arrays) - 1, "off": 0, "len": rng.choice([1, 1, 2]), "cap": 2})
     cls = [{"kind": rng.choice(["run", "out", "out"]), "cmd": rng.choice(CMDS), "baked": baked}]
-    ops = [{"op": "setenv", "k": rng.choice(VARS), "v": rng.choice(VALUES)} for _ in range(rng.choice([0, 0, 1, 2]))]
-    ops.append({"op": "par", "c": 0, "a": a, "b": b, "reps": reps})
+    ops = [{"op": "setenv", "k": rng.choice(VARS + [VERBOSE]), "v": rng.choice(VALUES)} for _ in range(rng.choice([0, 0, 1, 2]))]
+    ops.append({"op": "par", "c": 0, "extras": extras, "reps": reps})
     return {"kind": "par", "env": gen_env(rng), "arrays": arrays, "closures": cls, "ops": ops,
-            "scheds": [[rng.random() < 0.5 for _ in range(rng.choice([0, 3, 8, 20, 40]))] for _ in range(reps)]}
+            "scheds": [[rng.random() < 0.5 for _ in range(rng.choice([0, 3, 8, 20, 40, 200]))] for _ in range(reps)]}
 
 
 # ------------------------------------------------------------------ running
@@ -130,7 +154,7 @@ def concretize(x, child):
 
 def request(case, child, outfile, gate):
     env = dict(case["env"], CHILD="@CHILD@", CHILDDIR="@CHILDDIR@")
-    raw = {"outfile": outfile, "gate": gate, "clear": VARS + [UNSET, "CHILD", "CHILDDIR"], "env": env,
+    raw = {"outfile": outfile, "gate": gate, "clear": VARS + [UNSET, VERBOSE, "CHILD", "CHILDDIR"], "env": env,
            "arrays": case["arrays"], "closures": case["closures"], "ops": case["ops"]}
     return concretize({"op": "shslice", "raw": raw}, child)
 
@@ -186,6 +210,16 @@ def expected_closure(case, env, c, extra):
     return argv, (" ".join(argv[1:]) if cl["kind"] == "out" else None)
 
 
+def par_extras(o):
+    return o.get("extras") or [o["a"], o["b"]]
+
+
+def short(x, n=700):
+    """repr with the long slow-expansion runs abbreviated"""
+    r = re.sub(r"(\$\{Z\}){20,}", lambda m: "${Z}*%d" % (len(m.group(0)) // len(SLOW_REF)), repr(x))
+    return r if len(r) <= n else r[:n] + "..."
+
+
 def oracle(case, ans):
     """the property sentence over what the implementation did. returns a list of failed clauses"""
     bad = []
@@ -215,19 +249,21 @@ def oracle(case, ans):
             if ob["out"] != out:
                 bad.append("op %d: %s handed back %r, expected %r" % (i, what, ob["out"], out))
         elif o["op"] == "par":
-            ea, oa = expected_closure(case, env, o["c"], o["a"])
-            eb, ob_ = expected_closure(case, env, o["c"], o["b"])
+            exp = [expected_closure(case, env, o["c"], x) for x in par_extras(o)]
             for ri, rp in enumerate(ob.get("reps") or []):
-                if sorted(rp["lines"]) != sorted([ea, eb]):
-                    bad.append("op %d rep %d: two concurrent calls started %r, expected %r and %r" % (i, ri, rp["lines"], ea, eb))
-                if rp["out_a"] != oa or rp["out_b"] != ob_:
-                    bad.append("op %d rep %d: concurrent calls handed back %r / %r, expected %r / %r" % (i, ri, rp["out_a"], rp["out_b"], oa, ob_))
-                if rp["err_a"] or rp["err_b"]:
-                    bad.append("op %d rep %d: concurrent call returned an error: %r %r" % (i, ri, rp["err_a"], rp["err_b"]))
+                if sorted(rp["lines"]) != sorted(e[0] for e in exp):
+                    wrong = [l for l in rp["lines"] if l not in [e[0] for e in exp]]
+                    bad.append("op %d rep %d: %d concurrent calls of closure %d (%d baked-in arguments) started children with %s, expected one child each with %s" % (
+                        i, ri, len(exp), o["c"], case["closures"][o["c"]]["baked"]["len"], short(wrong or rp["lines"]), short([e[0] for e in exp])))
+                for g, e in enumerate(exp):
+                    if rp["outs"][g] != e[1]:
+                        bad.append("op %d rep %d: concurrent call %d handed back %s, expected %s (its own arguments)" % (i, ri, g, short(rp["outs"][g]), short(e[1])))
+                    if rp["errs"][g]:
+                        bad.append("op %d rep %d: concurrent call %d returned an error: %r" % (i, ri, g, rp["errs"][g][:200]))
                 if rp["snap"] != arrays:
-                    bad.append("op %d rep %d: caller-visible arrays changed by concurrent calls: %r -> %r" % (i, ri, arrays, rp["snap"]))
+                    bad.append("op %d rep %d: caller-visible arrays changed by concurrent calls: %s -> %s" % (i, ri, short(arrays), short(rp["snap"])))
         if ob["snap"] != arrays:
-            bad.append("op %d (%s): caller-visible arrays changed: %r -> %r" % (i, o["op"], arrays, ob["snap"]))
+            bad.append("op %d (%s): caller-visible arrays changed: %s -> %s" % (i, o["op"], short(arrays), short(ob["snap"])))
             break
     return bad
 
@@ -237,8 +273,16 @@ def t_slice(s):
     return "(S_ 0 0 0 0)" if s.get("nil") else "(S_ %d %d %d %d)" % (s["id"], s["off"], s["len"], s["cap"])
 
 
+def t_cell(x):
+    m = re.search(r"(?:\$\{Z\}){20,}", x)
+    if not m:
+        return coq_str(x)
+    return "(String.append %s (String.append (rep_str %s %d) %s))" % (
+        coq_str(x[:m.start()]), coq_str(SLOW_REF), len(m.group(0)) // len(SLOW_REF), t_cell(x[m.end():]))
+
+
 def t_strs(l):
-    return coq_list([coq_str(x) for x in l])
+    return coq_list([t_cell(x) for x in l])
 
 
 def t_heap(h):
@@ -280,28 +324,37 @@ def hist_term(case, ans):
 
 
 def par_terms(case, ans):
-    """one ccase per repetition"""
+    """the calls of one repetition are compared pairwise with the two-goroutine model: (0,1), (2,3), ..."""
     env = full_env(case)
     out = []
     for o, ob in zip(case["ops"], ans["obs"]):
         if o["op"] == "setenv":
             env[o["k"]] = o["v"]
             continue
-        ea, _ = expected_closure(case, dict(env), o["c"], o["a"])
+        extras = par_extras(o)
+        exp = [expected_closure(case, dict(env), o["c"], x)[0] for x in extras]
+        pairs = [(g, g + 1) for g in range(0, len(extras) - 1, 2)]
+        if len(extras) % 2:
+            pairs.append((len(extras) - 1, 0))
         for ri, rp in enumerate(ob.get("reps") or []):
             lines = list(rp["lines"])
-            # attribute the two children to the two calls (the oracle has already judged the multiset)
-            la = ea if ea in lines else (lines[0] if lines else [])
+            # attribute the children to the calls (the oracle has already judged the multiset)
+            mine = {}
             rest = list(lines)
-            if la in rest:
-                rest.remove(la)
-            lb = rest[0] if rest else []
-            out.append("{| cc_env := %s; cc_heap := %s; cc_cls := %s; cc_a := %s; cc_b := %s; cc_sched := %s; cc_argv_a := %s; cc_argv_b := %s; "
-                       "cc_out_a := %s; cc_out_b := %s; cc_snap := %s |}" % (
-                           t_env(env), t_heap(case["arrays"]), t_cls(case["closures"]),
-                           "(CallClosure %d %s)" % (o["c"], t_slice(o["a"])), "(CallClosure %d %s)" % (o["c"], t_slice(o["b"])),
-                           coq_list([coq_bool(x) for x in case["scheds"][ri % len(case["scheds"])]]),
-                           t_strs(la), t_strs(lb), t_optstr(rp["out_a"]), t_optstr(rp["out_b"]), t_heap(rp["snap"])))
+            for g, e in enumerate(exp):
+                if e in rest:
+                    mine[g] = e
+                    rest.remove(e)
+            for g in range(len(exp)):
+                if g not in mine:
+                    mine[g] = rest.pop(0) if rest else []
+            for (ga, gb) in pairs:
+                out.append("{| cc_env := %s; cc_heap := %s; cc_cls := %s; cc_a := %s; cc_b := %s; cc_sched := %s; cc_argv_a := %s; cc_argv_b := %s; "
+                           "cc_out_a := %s; cc_out_b := %s; cc_snap := %s |}" % (
+                               t_env(env), t_heap(case["arrays"]), t_cls(case["closures"]),
+                               "(CallClosure %d %s)" % (o["c"], t_slice(extras[ga])), "(CallClosure %d %s)" % (o["c"], t_slice(extras[gb])),
+                               coq_list([coq_bool(x) for x in case["scheds"][ri % len(case["scheds"])]]),
+                               t_strs(mine[ga]), t_strs(mine[gb]), t_optstr(rp["outs"][ga]), t_optstr(rp["outs"][gb]), t_heap(rp["snap"])))
     return out
 
 
@@ -397,16 +450,23 @@ def run(ctx):
     byfn, cmdforms = {}, {}
     feat = {"call_without_extra": 0, "call_after_setenv": 0, "repeated_call_of_one_closure": 0, "baked_with_spare_capacity": 0,
             "extra_aliases_baked_array": 0, "offset_slices": 0, "closures_sharing_an_array": 0, "dollar_in_baked": 0, "env_map_overrides": 0,
-            "par_repetitions": 0}
+            "par_repetitions": 0, "calls_in_verbose_mode": 0, "verbose_direct_calls_without_dollar": 0, "concurrent_slow_expansion_cases": 0}
+    par_baked, par_goroutines = {}, {}
     for c, a in zip(cases, answers):
         h = case_hash(c["_abstract"])
         ncalls = 0
         calls_of = {}
         setenv_seen = False
+        verbose = c["env"].get(VERBOSE, "")
         for o in c["ops"]:
             kinds[o["op"]] += 1
             if o["op"] == "setenv":
                 setenv_seen = True
+                if o["k"] == VERBOSE:
+                    verbose = o["v"]
+            is_verbose = verbose in ("1", "true")
+            if o["op"] in ("call", "direct"):
+                feat["calls_in_verbose_mode"] += is_verbose
             if o["op"] == "call":
                 ncalls += 1
                 calls_of[o["c"]] = calls_of.get(o["c"], 0) + 1
@@ -422,8 +482,15 @@ def run(ctx):
                 ncalls += 1
                 byfn[o["fn"]] = byfn.get(o["fn"], 0) + 1
                 feat["env_map_overrides"] += bool(o.get("emap")) and o["fn"] in USES_MAP
+                cs = contents(c["arrays"], o["args"])
+                feat["verbose_direct_calls_without_dollar"] += is_verbose and len(cs) > 0 and not any("$" in x for x in cs)
             if o["op"] == "par":
                 feat["par_repetitions"] += o["reps"]
+                nb = c["closures"][o["c"]]["baked"]["len"]
+                par_baked[nb] = par_baked.get(nb, 0) + 1
+                ng = len(par_extras(o))
+                par_goroutines[ng] = par_goroutines.get(ng, 0) + 1
+                feat["concurrent_slow_expansion_cases"] += any(SLOW_REF * 20 in x for x in contents(c["arrays"], c["closures"][o["c"]]["baked"]))
         feat["repeated_call_of_one_closure"] += any(v >= 2 for v in calls_of.values())
         ids = [cl["baked"]["id"] for cl in c["closures"] if not cl["baked"]["nil"]]
         feat["closures_sharing_an_array"] += len(ids) != len(set(ids))
@@ -435,13 +502,18 @@ def run(ctx):
     cov["distinct_nontrivial"] = nontriv
     cov["rule"] = ("histories: 1-5 arrays of 0-6 cells ($V, ${V}, mixed and literal words in every cell, spare cells included), 1-3 closures "
                    "(RunCmd/OutCmd, cmd literal or $CHILD-style, baked slice of random offset/len/cap, often spare capacity, sometimes two closures on one array), "
-                   "1-10 operations setenv | closure call (extra nil or any slice, may alias the baked array) | the seven direct functions with env maps; "
-                   "concurrent cases: two goroutines on one closure with spare capacity, gate-held children, each repetition one evaluation; "
+                   "1-10 operations setenv (V..Y and MAGEFILE_VERBOSE unset/0/1/true) | closure call (extra nil or any slice, may alias the baked array) | the seven direct functions with env maps; "
+                   "40% of the arrays hold no $ reference at all; "
+                   "concurrent cases: 2-6 goroutines released together on one closure with 1,2,3,4,8,16,17,19,21 or 33 baked-in arguments (caller slice with 0-2 spare cells), "
+                   "1-2 extra arguments each, baked-in arguments that are slow to expand (thousands of ${Z}) so the calls overlap inside Exec, gate-held children; "
+                   "each pair of calls of each repetition is one model evaluation; "
                    "distinct by hash of the abstract case; non-trivial = concurrent case, or >=2 calls and a $ reference in some cell")
     cov["histories"] = len(hist)
     cov["concurrent_cases"] = len(pars)
     cov["operations"] = kinds
     cov["by_function"] = byfn
+    cov["concurrent_baked_counts"] = {str(k): v for k, v in sorted(par_baked.items())}
+    cov["concurrent_goroutines"] = {str(k): v for k, v in sorted(par_goroutines.items())}
     cov["closure_cmd_forms"] = cmdforms
     cov["features"] = {k: int(v) for k, v in feat.items()}
     cov["model_mismatches"] = len(mism) + len(pmism)
